@@ -232,8 +232,11 @@ class ReferenceCache:
         :param at_end: whether to move references to the start or end of
              to_block
         """
-        if not any(block.references) and block not in self._references:
+        if not any(block.references) and not self._has_indirect_references(
+            block
+        ):
             # No direct or indirect references, so nothing to retarget.
+            self._references.pop(block, None)
             return
         assert to_block
 
@@ -275,6 +278,19 @@ class ReferenceCache:
         target_ref.children.add(end_refs)
         start_refs.parent = target_ref
         end_refs.parent = target_ref
+
+    def _has_indirect_references(self, block: gtirb.Block) -> bool:
+        """
+        Determines if any symbol indirectly refers to the block. The trees of
+        a block can be left without symbols by get_referent and set_referent.
+        """
+        worklist = list(self._references.get(block, ()))
+        while worklist:
+            node = worklist.pop()
+            if node.symbols:
+                return True
+            worklist.extend(node.children)
+        return False
 
     def get_references(self, block: gtirb.Block) -> Iterator[gtirb.Symbol]:
         """
